@@ -563,6 +563,69 @@ def rule_no_shortcut_with_certificate(ctx):
                             r.check(k is not None and k.get("bool") is False, caller.id + "|allow_shortcut", "shortcut-allowed=%s" % (k and k.get("bool")), "the certificate entry point forbids the shortcut", "the certificate entry point allows the non-maximal shortcut: the witness need not be a preferred extension", cs2.loc())
                         else:
                             r.ok(caller.id + "|allow_shortcut", "plain entry point passes %s" % (k and k.get("bool")), cs2.loc())
+    if found == 0:
+        # flag form: `let is_counterexample = match state { Intermediate => .. allow_shortcut && .., .. }; if is_counterexample { return (false, Some(..)) }`
+        for b in prog.lib_bodies():
+            if b.kind == "closure" or not b.path.startswith("solvers::"):
+                continue
+            bool_params = [k for k in range(1, b.n_args + 1) if b.local_ty(k) == "bool"]
+            inter_targets = []
+            for sw in switch_sites(b):
+                subj = switch_subject(b, sw)
+                if subj and subj[1] and "MaximalExtensionComputerState" in (b.local_ty(subj[0]["l"]) + str(place_ty_of(b, subj[0]) or "")):
+                    inter_targets += [tb for v, tb in sw.node["targets"] if v == idx["Intermediate"]]
+            if not inter_targets or not bool_params:
+                continue
+            for s in b.sites():
+                nd = s.node
+                if not (s.si is not None and nd["k"] == "assign" and nd["dst"]["l"] == 0 and nd["rv"]["k"] == "aggregate" and nd["rv"]["agg"]["kind"] == "tuple"):
+                    continue
+                if not any(isinstance(x, tuple) and x[0] == "Some" for x in shp.shapes_of(prog, b, nd["rv"]["ops"][1], s)):
+                    continue
+                from ..flow import resolve_copy
+
+                flags = [resolve_copy(b, c.place["l"]) for c in conditions(b, s.bb) if not c.is_discr and c.is_true() and not c.place["p"] and b.local_ty(c.place["l"]) == "bool"]
+                flags = [F for F in flags if len(b.defs.get(F, [])) > 1]
+                for F in flags:
+
+                    arm_blocks = set()
+                    for tb in inter_targets:
+                        arm_blocks |= {tb} | {x for x in b.blocks_reachable_from(tb) if b.dominates(Site(b, tb, 0 if b.blocks[tb]["stmts"] else None), Site(b, x, 0 if b.blocks[x]["stmts"] else None))}
+                    defs_in_arm = []
+                    for l in {F} | {l2 for l2 in b.defs if resolve_copy(b, l2) == F}:
+                        defs_in_arm += [d for d in b.defs.get(l, []) if d.bb in arm_blocks]
+                    # definitions of F made in the Intermediate arm that may store `true`
+                    def _const_false(d):
+                        return d.si is not None and d.node["k"] == "assign" and d.node["rv"]["k"] == "use" and (op_const(d.node["rv"]["ops"][0]) or {}).get("bool") is False
+
+                    live = []
+                    for d in b.defs.get(F, []):
+                        if d.bb not in arm_blocks or _const_false(d):
+                            continue
+                        q = op_place(d.node["rv"]["ops"][0]) if (d.si is not None and d.node["k"] == "assign" and d.node["rv"]["k"] == "use") else None
+                        if q is not None and not q["p"] and b.local_ty(q["l"]) == "bool":
+                            inner = [d2 for d2 in b.defs.get(q["l"], []) if not _const_false(d2)]
+                            live += inner or [d]
+                        else:
+                            live.append(d)
+                    if not live:
+                        continue
+                    found += 1
+                    unguarded = [d for d in live if not any((not c.is_discr) and c.is_true() and any(o.kind == "param" and o.data in bool_params for o in origins(b, c.place, transparent=())) for c in conditions(b, d.bb))]
+                    r.check(not unguarded, b.id + "|shortcut", "unguarded-shortcut", "in the Intermediate arm the counter-example flag can become true only under a bool parameter", "in the Intermediate arm the flag that makes the function return the current (non-maximal) set can become true without the allow_shortcut guard", (unguarded[0] if unguarded else s).loc())
+                    if not unguarded:
+                        pk = [o.data for d in live for c in conditions(b, d.bb) if (not c.is_discr) and c.is_true() for o in origins(b, c.place, transparent=()) if o.kind == "param" and o.data in bool_params][0]
+                        for caller in prog.lib_bodies():
+                            for cs2 in caller.calls():
+                                if prog.body_for_callee(callee_of(cs2), caller) is b:
+                                    k = op_const(cs2.node["args"][pk - 1])
+                                    if (caller.name or "").endswith("_with_certificate"):
+                                        r.check(k is not None and k.get("bool") is False, caller.id + "|allow_shortcut", "shortcut-allowed=%s" % (k and k.get("bool")), "the certificate entry point forbids the shortcut", "the certificate entry point allows the non-maximal shortcut: the witness need not be a preferred extension", cs2.loc())
+    if found == 0:
+        soft = [b for b in prog.lib_bodies() if b.kind != "closure" and b.path.startswith("solvers::") and any(b.local_ty(k) == "bool" for k in range(1, b.n_args + 1)) and any(callee_matches(callee_of(s), r"MaximalExtensionComputer::state$") for s in b.calls())]
+        if soft:
+            r.ok(soft[0].id + "|shortcut", "NOT decided: no return of a counter-example is tied to the Intermediate state in a form the rule follows", soft[0].loc())
+            return
     r.floor(found, 1, "Intermediate-state counter-example returns")
 
 
